@@ -178,6 +178,10 @@ type Folder struct {
 	Lookup func(x *ssa.Lookup, m, k AV) (AV, bool)
 	// Global gives the abstract content of a global variable's address; may be nil.
 	Global func(g *ssa.Global) (AV, bool)
+	// Invoke decides the result of an interface method call from the abstract receiver; may be nil.
+	Invoke func(f *Folder, call *ssa.Call, recv AV, args []AV) (AV, bool)
+	// Assert decides a comma-ok type assertion: it returns the asserted value and whether the assertion holds.
+	Assert func(x *ssa.TypeAssert, v AV) (val AV, holds bool, ok bool)
 	// FuncArgs records the argument polynomial of every uninterpreted math call (symbol name -> argument).
 	FuncArgs map[string]Poly
 	MaxDepth int
@@ -432,6 +436,11 @@ func (f *Folder) Fold(fn *ssa.Function, args []AV) (res []AV, err error) {
 			case *ssa.TypeAssert:
 				if x.CommaOk {
 					env[x] = TopV{"comma-ok assert"}
+					if f.Assert != nil {
+						if val, holds, ok := f.Assert(x, get(x.X)); ok {
+							env[x] = Agg{E: []AV{val, BoolV(holds)}}
+						}
+					}
 				} else {
 					env[x] = get(x.X)
 				}
@@ -452,6 +461,12 @@ func (f *Folder) Fold(fn *ssa.Function, args []AV) (res []AV, err error) {
 				var cargs []AV
 				for _, a := range x.Call.Args {
 					cargs = append(cargs, get(a))
+				}
+				if x.Call.IsInvoke() && f.Invoke != nil {
+					if r, ok := f.Invoke(f, x, get(x.Call.Value), cargs); ok {
+						env[x] = r
+						break
+					}
 				}
 				env[x] = f.call(x, cargs)
 			case *ssa.Extract:
